@@ -371,6 +371,20 @@ def check_name_shapes(ctx, which=("same-short-name", "keyword-variable", "common
 
 VIS_HOMES = ["msg:F0", "msg:F1", "file:F0", "file:F1", "file:F2", "msg:F2", "nested:F0"]
 VIS_PKG = "acme.lib.v1"
+COMMON_TYPES = ["cloudresourcemanager.googleapis.com/Project", "cloudresourcemanager.googleapis.com/Organization",
+                "cloudresourcemanager.googleapis.com/Folder", "cloudbilling.googleapis.com/BillingAccount",
+                "locations.googleapis.com/Location"]
+# fixed plan, run first on every run: API-declared resources of a common TYPE with their own patterns, only named
+COMMON_TYPED_PLAN = {"resources": [
+    {"name": "Location", "type": "locations.googleapis.com/Location", "home": "file:F1", "via": "ref", "side": "input", "depth": 0, "cycle": False,
+     "segs": [["lit", "organizations/"], ["var", "organization", False], ["lit", "/locations/"], ["var", "location", False]], "values": ["o-1", "eu.west1"]},
+    {"name": "Project", "type": "cloudresourcemanager.googleapis.com/Project", "home": "msg:F0", "via": "child_ref", "side": "lro", "depth": 1, "cycle": False,
+     "segs": [["lit", "tenants/"], ["var", "tenant", False], ["lit", "/projects/"], ["var", "project", True]], "values": ["t1", "a/b/c"]},
+    {"name": "BillingAccount", "type": "cloudbilling.googleapis.com/BillingAccount", "home": "file:F2", "via": "ref", "side": "output", "depth": 2, "cycle": True,
+     "segs": [["lit", "orgs/"], ["var", "org", False], ["lit", "/billingAccounts/"], ["var", "billing_account", False]], "values": ["o", "0A-1"]},
+    {"name": "Shelf", "type": "lib.example.com/Shelf", "home": "file:F0", "via": "ref", "side": "input", "depth": 0, "cycle": False,
+     "segs": [["lit", "shelves/"], ["var", "shelf", False]], "values": ["s"]}],
+    "extras": {"ref_common": True}}
 
 
 def gen_vis_spec(r: apigen.Rng, nested_ref=False):
@@ -381,6 +395,7 @@ def gen_vis_spec(r: apigen.Rng, nested_ref=False):
     0..3 wrapper messages, optionally recursive) or no link at all."""
     n = r.randint(5, 10)
     res = []
+    common_pick = r.sample(COMMON_TYPES, r.pick([0, 1, 1, 2]))
     for k in range(n):
         name = NAMES[k]
         segs = gen_pattern(r)
@@ -393,7 +408,16 @@ def gen_vis_spec(r: apigen.Rng, nested_ref=False):
             via = r.pick(["type", "type", "ref", "child_ref", "none"])
         if nested_ref and k == 0:
             home, via = "nested:F0", "ref"
-        res.append({"name": name, "type": f"{r.pick(['lib', 'other'])}.example.com/{name}", "segs": segs,
+        rtype = f"{r.pick(['lib', 'other'])}.example.com/{name}"
+        if k < len(common_pick):
+            # the API ITSELF declares a resource under one of the five common resource TYPES, with its own pattern, and
+            # (mostly) only names it: it is an ordinary visible resource (`location_path` next to `common_location_path`)
+            rtype = common_pick[k]
+            name = rtype.split("/")[1]
+            if home == "nested:F0":
+                home = r.pick(["file:F0", "file:F1", "file:F2", "msg:F0", "msg:F1"])
+            via = r.pick(["ref", "ref", "child_ref", "child_ref", "type"] if home in ("msg:F0", "msg:F1") else ["ref", "child_ref"])
+        res.append({"name": name, "type": rtype, "segs": segs,
                     "home": home, "via": via, "side": r.pick(["input", "output", "lro", "lro"]),
                     "depth": r.pick([0, 0, 1, 1, 2, 3]), "cycle": r.maybe(0.3), "values": gen_values(r, segs)})
     extras = {"ref_unknown": r.maybe(0.5), "ref_star": r.maybe(0.3), "ref_common": r.maybe(0.5),
@@ -526,6 +550,8 @@ def run_vis(ctx, spec, label):
              distinct_key=["vis", json.dumps(spec, sort_keys=True)], nontrivial=any(x["via"] != "none" for x in spec["resources"]))
     for x in spec["resources"]:
         ctx.count("visibility", f"{x['home'].split(':')[0]}/{x['via']}/{x['side'] if x['via'] != 'none' else '-'}")
+        if x["type"] in COMMON_TYPES:
+            ctx.count("visibility", f"common-type-declared/{x['home'].split(':')[0]}/{x['via']}")
     # ---- T2: Service.resource_messages vs the model
     api, _ = genrun.build_api(req)
     svc = next(iter(api.services.values()))
@@ -639,6 +665,7 @@ def run(ctx):
         blob = json.load(open(os.path.join(cdir, fn)))
         if "vis" in blob.get("payload", {}):
             run_vis(ctx, blob["payload"]["vis"], "corpus:" + fn)
+    run_vis(ctx, COMMON_TYPED_PLAN, "vis-common-typed")
     if ctx.tier == "thorough":
         run_vis(ctx, gen_vis_spec(rv, nested_ref=True), "vis-nested-named-only")
     for a in range(ctx.n(10, 300)):
